@@ -1,6 +1,6 @@
-(* C18 — the buffer estimate of Tree._as_newick_fast: refuted as written (finding F5),
-   proved for the repaired estimate; corollaries of the C = Python theorem for the
-   default labels. *)
+(* C18 — the buffer estimate of Tree._as_newick_fast (as repaired by fix 1e12f75) is
+   sufficient for every tree; the pre-fix formula [estimate_pinned] was not (finding F5, kept as
+   a historical record); corollaries of the C = Python theorem for the default labels. *)
 From Coq Require Import List ZArith Bool Lia.
 From TskVerif Require Import Base.Common Gen.Generated C18.Model C18.ParserProofs C18.WriterProofs.
 Import ListNotations.
@@ -145,19 +145,23 @@ Section Bound.
   Qed.
 End Bound.
 
-(* ---------- the repaired estimate is sufficient ---------- *)
-Theorem repaired_estimate_bound :
+(* ---------- the estimate is sufficient ---------- *)
+Lemma estimate_eq : forall N W, estimate N W = 1 + (4 + zlen (dec N) + W) * N.
+Proof. reflexivity. Qed.
+
+Theorem estimate_bound :
   forall (Tm : Type) (tsub : Tm -> Tm -> Tm) (print_num : Z -> Tm -> str) (tm : Z -> Tm)
-         (lab : Z -> str) (prec : Z) (t : rtree) (N L W : Z),
-    0 <= L -> 0 <= W ->
-    (forall v, In v (ids t) -> zlen (lab v) <= 1 + L) ->
+         (lab : Z -> str) (prec : Z) (t : rtree) (N W : Z),
+    0 <= W ->
+    (forall v, In v (ids t) -> zlen (lab v) <= 1 + zlen (dec N)) ->
     (forall p c, In (p, c) (redges t) -> zlen (btoken Tm tsub print_num tm prec p c) <= W) ->
     Z.of_nat (rsize t) <= N ->
-    zlen (py_build Tm tsub print_num tm lab true prec t) + 2 <= estimate_repaired N L W.
+    zlen (py_build Tm tsub print_num tm lab true prec t) + 2 <= estimate N W.
 Proof.
-  intros Tm tsub print_num tm lab prec t N L W HL HW Hl Ht HN.
-  pose proof (py_len_bound Tm tsub print_num tm lab prec (1 + L) W t ltac:(lia) HW Hl Ht) as H.
-  unfold estimate_repaired. unfold zsize in H.
+  intros Tm tsub print_num tm lab prec t N W HW Hl Ht HN.
+  pose proof (dec_len_pos N) as HL.
+  pose proof (py_len_bound Tm tsub print_num tm lab prec (1 + zlen (dec N)) W t ltac:(lia) HW Hl Ht) as H.
+  rewrite estimate_eq. unfold zsize in H.
   assert (1 <= Z.of_nat (rsize t)) by (destruct t; simpl rsize; lia).
   nia.
 Qed.
@@ -198,8 +202,33 @@ Proof.
   - intros v Hv. apply lab_default_agrees. auto.
 Qed.
 
-(* with the repaired estimate the fast path never overflows *)
-Theorem repaired_estimate_sufficient :
+(* with the estimate of _as_newick_fast the fast path never overflows: for any label function
+   the C writer agrees with and whose labels have at most 1 + len(str(N)) bytes *)
+Theorem estimate_sufficient_gen :
+  forall (Tm : Type) (tsub : Tm -> Tm -> Tm) (print_num : Z -> Tm -> str) (tm : Z -> Tm)
+         (a : ctree) (ms : bool) (lab : Z -> str) (N rp prec W : Z) (t : rtree),
+    repb a rp t = true -> nodupb (ids t) = true -> memb rp (ids t) = false ->
+    (forall v, In v (ids t) -> 0 <= v < N) ->
+    (forall v, In v (ids t) -> lab_agrees a ms lab v) ->
+    (forall v, In v (ids t) -> zlen (lab v) <= 1 + zlen (dec N)) ->
+    0 <= W ->
+    (forall p c, In (p, c) (redges t) -> zlen (btoken Tm tsub print_num tm prec p c) <= W) ->
+    c_newick Tm tsub print_num tm a N (rid t) ms prec (estimate N W)
+    = Ok (py_newick Tm tsub print_num tm lab true prec t).
+Proof.
+  intros Tm tsub print_num tm a ms lab N rp prec W t Hrep Hnd Hrp Hr Hag Hlen HW Ht.
+  apply c_newick_sufficient with (rp := rp); auto.
+  - apply nodupb_NoDup; auto.
+  - apply memb_false; auto.
+  - apply Hr. apply rid_in_ids.
+  - apply estimate_bound; auto.
+    rewrite rsize_ids.
+    assert (length (ids t) <= Z.to_nat N)%nat.
+    { apply pigeon; [apply nodupb_NoDup; auto|]. intros x Hx. specialize (Hr x Hx). lia. }
+    assert (0 <= N) by (specialize (Hr _ (rid_in_ids t)); lia). lia.
+Qed.
+
+Theorem estimate_sufficient :
   forall (Tm : Type) (tsub : Tm -> Tm -> Tm) (print_num : Z -> Tm -> str) (tm : Z -> Tm)
          (a : ctree) (N rp prec W : Z) (t : rtree),
     repb a rp t = true -> nodupb (ids t) = true -> memb rp (ids t) = false ->
@@ -207,22 +236,15 @@ Theorem repaired_estimate_sufficient :
     (forall v, In v (ids t) -> exists f, get (ct_flags a) v = Ok f) ->
     0 <= W ->
     (forall p c, In (p, c) (redges t) -> zlen (btoken Tm tsub print_num tm prec p c) <= W) ->
-    c_newick Tm tsub print_num tm a N (rid t) false prec (estimate_repaired N (zlen (dec N)) W)
+    c_newick Tm tsub print_num tm a N (rid t) false prec (estimate N W)
     = Ok (py_newick Tm tsub print_num tm (lab_default a) true prec t).
 Proof.
-  intros Tm tsub print_num tm a N rp prec W t Hrep Hnd Hrp Hr Hfl HW Ht.
-  apply fast_general_default with (rp := rp); auto.
-  - apply Hr. apply rid_in_ids.
-  - apply repaired_estimate_bound; auto.
-    + pose proof (dec_len_pos N). lia.
-    + intros v Hv. apply lab_default_len. specialize (Hr v Hv). lia.
-    + rewrite rsize_ids.
-      assert (length (ids t) <= Z.to_nat N)%nat.
-      { apply pigeon; [apply nodupb_NoDup; auto|]. intros x Hx. specialize (Hr x Hx). lia. }
-      assert (0 <= N) by (specialize (Hr _ (rid_in_ids t)); lia). lia.
+  intros. eapply estimate_sufficient_gen; eauto.
+  - intros v Hv. apply lab_default_agrees. auto.
+  - intros v Hv. apply lab_default_len. specialize (H2 v Hv). lia.
 Qed.
 
-(* ---------- the estimate as written is NOT sufficient (finding F5) ---------- *)
+(* ---------- the PRE-FIX estimate was not sufficient (finding F5, fixed by 1e12f75) ---------- *)
 (* exact instance: times are integers counting units of 10^-q, printed with q decimals *)
 Definition times_increase (times : list Z) (t : rtree) : bool :=
   forallb (fun e => fx_tm times (snd e) <? fx_tm times (fst e)) (redges t).
@@ -238,27 +260,29 @@ Fixpoint chain_rtree (k : nat) : rtree :=
   match k with O => RN 0 [] | S k' => RN (Z.of_nat k) [chain_rtree k'] end.
 
 (* F5a: two samples, child time -1000000, root time 1, integer times, default precision 0 *)
-Theorem buffer_estimate_refuted_negative_times :
+Theorem estimate_pinned_refuted_negative_times :
   exists (a : ctree) (N : Z) (t : rtree) (times : list Z),
     repb a (-1) t = true /\ nodupb (ids t) = true /\ times_increase times t = true /\
-    as_newick_fast Z Z.sub print_fixed (fx_tm times) a N (rid t) false 0 (fx_T 0 (fx_tm times (rid t)))
+    c_newick Z Z.sub print_fixed (fx_tm times) a N (rid t) false 0
+             (estimate_pinned N (fx_T 0 (fx_tm times (rid t))) 0)
     = Err c18_err_buffer_overflow /\
     py_newick Z Z.sub print_fixed (fx_tm times) (lab_default a) true 0 t = s2z "(n0:1000001)n1;" /\
-    estimate N (fx_T 0 (fx_tm times (rid t))) 0 = 13.
+    estimate_pinned N (fx_T 0 (fx_tm times (rid t))) 0 = 13.
 Proof.
   exists (chain_ctree 2), 2, (chain_rtree 1), [-1000000; 1].
   vm_compute. repeat split; reflexivity.
 Qed.
 
 (* F5b: eight samples in a unary chain at times k/8, precision 3 *)
-Theorem buffer_estimate_refuted_fractional :
+Theorem estimate_pinned_refuted_fractional :
   exists (a : ctree) (N : Z) (t : rtree) (times : list Z),
     repb a (-1) t = true /\ nodupb (ids t) = true /\ times_increase times t = true /\
     (forall v, In v (ids t) -> 0 <= fx_tm times v < 1000) /\
-    as_newick_fast Z Z.sub print_fixed (fx_tm times) a N (rid t) false 3 (fx_T 3 (fx_tm times (rid t)))
+    c_newick Z Z.sub print_fixed (fx_tm times) a N (rid t) false 3
+             (estimate_pinned N (fx_T 3 (fx_tm times (rid t))) 3)
     = Err c18_err_buffer_overflow /\
     zlen (py_newick Z Z.sub print_fixed (fx_tm times) (lab_default a) true 3 t) + 1
-    > estimate N (fx_T 3 (fx_tm times (rid t))) 3.
+    > estimate_pinned N (fx_T 3 (fx_tm times (rid t))) 3.
 Proof.
   exists (chain_ctree 8), 8, (chain_rtree 7), [0; 125; 250; 375; 500; 625; 750; 875].
   split; [vm_compute; reflexivity|]. split; [vm_compute; reflexivity|].
@@ -282,8 +306,13 @@ Example ex_fast_general :
   c_newick Z Z.sub print_fixed (fx_tm ex_times) ex_ctree 5 4 true 0 40 = Ok (s2z "((1:20,2:20):280,3:295);").
 Proof. vm_compute. repeat split; reflexivity. Qed.
 
-Example ex_repaired :
+(* the same two trees with the estimate of the current code *)
+Example ex_estimate_now :
   c_newick Z Z.sub print_fixed (fx_tm [0; 125; 250; 375; 500; 625; 750; 875]) (chain_ctree 8) 8 7 false 3
-           (estimate_repaired 8 (zlen (dec 8)) 5)
+           (estimate 8 5)
   = Ok (s2z "(((((((n0:0.125)n1:0.125)n2:0.125)n3:0.125)n4:0.125)n5:0.125)n6:0.125)n7;").
+Proof. vm_compute. reflexivity. Qed.
+Example ex_estimate_now_negative :
+  c_newick Z Z.sub print_fixed (fx_tm [-1000000; 1]) (chain_ctree 2) 2 1 false 0 (estimate 2 7)
+  = Ok (s2z "(n0:1000001)n1;").
 Proof. vm_compute. reflexivity. Qed.
